@@ -122,6 +122,7 @@ class Ref(T):
         inst.methods = {}     # method name -> python contract generator(engine, st, self, args, kw)
         inst.attrs = {}       # attribute name -> python function(engine, st, self) -> value
         inst.noinline = set()
+        inst.null = None      # z3 constant standing for python None when the reference is nullable
         Ref._registry[name] = inst
         return inst
 
